@@ -8,14 +8,14 @@ def shapes(tier):
     out = [b, replace(b, revoked=(0,)), replace(b, revoked=(2,)), replace(b, revoked=(1,)), replace(b, revoked=(0,), invalidity=1),
            replace(b, revoked=(3,), invalidity=1), replace(b, idp=1), replace(b, idp=2, idp_uris=2), replace(b, idp=3),
            replace(b, revoked=(2, 0), invalidity=2, idp=2, issuer_ku=4, number_len=3, number_b0=0x80, serial_len=3, serial_b0=0xff),
-           replace(b, kid=1, revoked=(5,))]
+           replace(b, kid_len=4, revoked=(5,))]
     if tier == "thorough":
         for r in range(4, 11):
             out.append(replace(b, revoked=(r,)))
         for r in (0, 1, 7):
             out.append(replace(b, revoked=(r, r), invalidity=3))
-        for k in (2, 3):
-            out.append(replace(b, kid=k))
+        for kl in (0, 1, 3):
+            out.append(replace(b, kid_len=kl))
         for n in (1, 2, 4):
             for b0 in (0x01, 0x7f, 0x80, 0xff):
                 out.append(replace(b, revoked=(2,), number_len=n, number_b0=b0, serial_len=n, serial_b0=b0))
